@@ -1,6 +1,8 @@
 import TucanProofs.Lemmas.LineMachinery
 import TucanProofs.Lemmas.SpliceAny
 import TucanProofs.Lemmas.V3000Lines
+import TucanProofs.Lemmas.V3000File
+import TucanProofs.Lemmas.GraphFromMoleculeKeys
 /-!
 # C07 — the V3000 reader decodes exactly the molecule the file states
 
@@ -9,6 +11,52 @@ the code by the correspondence on spec-derived renderings; the theorems cover th
 spelling goes through.
 -/
 namespace Tucan
+
+/-- **C07, the whole connection table under every spelling.**  Header, version line, and the logical
+`M  V30 ` lines (any line at position 4, the counts line, `BEGIN ATOM`, one line per real or star atom,
+`END ATOM`, and — unless the bond count is zero — `BEGIN BOND`, one line per bond, `END BOND`), followed by
+any further lines; every logical line written with arbitrary runs of blanks and split into physical lines
+at arbitrary positions with a trailing dash; atom properties in any order with other keywords in between;
+arbitrary (sparse, large, unordered) atom indices; multi-attachment bonds to star atoms.  The reader returns
+one atom per non-star atom line, in file order, keyed by the written index, with the stated element, charge,
+radical, mass and coordinate tokens, and one bond per bond line between real atoms plus one bond per listed
+endpoint for a bond to a star atom, each with the stated type. -/
+theorem C07_connection_table_every_spelling (h0 h1 h2 h3 : Str) (line4 : List Str) (countsRest : List Str)
+    (atoms : List AtomEntry) (bonds : List BondEntry) (tailLines tailSpliced : List Str)
+    (p4 pCounts pBeginAtom pEndAtom pBeginBond pEndBond : List Str) (pAtoms pBonds : List (List Str))
+    (hhdr : ∀ h ∈ [h0, h1, h2, h3], (startsWith h v30Prefix && endsWithChar h '-') = false)
+    (r4 : Rendered line4 p4)
+    (rCounts : Rendered (cs "COUNTS" :: natRepr atoms.length :: natRepr bonds.length :: countsRest) pCounts)
+    (rBA : Rendered [cs "BEGIN", cs "ATOM"] pBeginAtom) (rEA : Rendered [cs "END", cs "ATOM"] pEndAtom)
+    (rBB : Rendered [cs "BEGIN", cs "BOND"] pBeginBond) (rEB : Rendered [cs "END", cs "BOND"] pEndBond)
+    (rAtoms : AllRendered AtomEntry.toks atoms pAtoms)
+    (rBonds : AllRendered BondEntry.toks bonds pBonds)
+    (hatoms : ∀ e ∈ atoms, e.Ok) (hbonds : ∀ b ∈ bonds, b.Ok)
+    (hcounts : (natRepr atoms.length).length ≤ intMaxStrDigits ∧ (natRepr bonds.length).length ≤ intMaxStrDigits)
+    (hnostar2 : ∀ b ∈ bonds, ¬ ((starsOf atoms).contains (b.a1 - 1) ∧ (starsOf atoms).contains (b.a2 - 1)))
+    (hendpoints : ∀ b ∈ bonds, ∀ t ∈ b.tuples (starsOf atoms),
+      (alookup t.1 (atomDictOf atoms)).isSome ∧ (alookup t.2 (atomDictOf atoms)).isSome)
+    (htail : concatLinesWithDash tailLines = .ok tailSpliced) (htailne : tailLines ≠ []) :
+    graphAttributesV3000
+      (h0 :: h1 :: h2 :: h3 :: (p4 ++ pCounts ++ pBeginAtom ++ pAtoms.flatten ++ pEndAtom ++
+        (if bonds.isEmpty then [] else pBeginBond ++ pBonds.flatten ++ pEndBond) ++ tailLines)) =
+      .ok (atomDictOf atoms, bondDictOf (starsOf atoms) bonds) :=
+  graphAttributesV3000_spec h0 h1 h2 h3 line4 countsRest atoms bonds tailLines tailSpliced p4 pCounts pBeginAtom
+    pEndAtom pBeginBond pEndBond pAtoms pBonds hhdr r4 rCounts rBA rEA rBB rEB rAtoms rBonds hatoms hbonds hcounts
+    hnostar2 hendpoints htail htailne
+
+/-- **Arbitrary unique atom indices are renumbered consecutively in file order**: `graph_from_molecule` turns an
+atom dictionary with any distinct keys into a graph whose node `i` is the atom listed at position `i`, and a
+bond between two keys into a bond between their positions, with its record. -/
+theorem C07_consecutive_renumbering (atoms : List (Int × Atom)) (bonds : List ((Int × Int) × Bond))
+    (hk : (atoms.map (·.1)).Nodup) (hb : GoodKeyBonds atoms bonds) (hz : ∀ a ∈ atoms, a.2.z.isSome) :
+    ∃ g post, graphFromMolecule atoms bonds = .ok (g, post) ∧
+      g.labels = List.range atoms.length ∧ g.WF ∧ g.Simple ∧
+      (∀ i (hi : i < atoms.length), ∃ x, addInvariantCode (atoms[i]).2 = .ok x ∧ g.attrs? i = some x) ∧
+      (∀ i j d, (j, d) ∈ g.nbrsD i ↔
+        ∃ k l, keyPos atoms k = some i ∧ keyPos atoms l = some j ∧
+          (((k, l), d) ∈ bonds ∨ ((l, k), d) ∈ bonds)) :=
+  graphFromMolecule_keys atoms bonds hk hb hz
 
 /-- **Continuation at any split point.**  However a logical line is split over physical lines — inside a
 token, directly after a minus sign, before or after a blank, once or many times — splicing restores it
